@@ -14,10 +14,10 @@ EXPLANATION = (
     "identifier group of the collected shares)); a failed combination/decryption of one group falls through to the next group (no Err exit "
     "inside the group loop other than after exhaustion); every other exit is Err(InvalidShares) or the propagated extraction error. C11.3: "
     "the collector reads the 'sskrShare' objects of every input envelope as SSKRShare and groups them by share.identifier() and nothing "
-    "else (every collected share is kept in its identifier group). Does not decide 'iff the subset satisfies the policy': that is the sskr "
+    "else (every collected share is kept in its identifier group). C11.6: the decrypt_subject instances of C08 re-evaluated here (the join opens the first share envelope with it). C11.7: the split functions have no refusal of their own. Does not decide 'iff the subset satisfies the policy': that is the sskr "
     "crate's combinatorics.")
 TRUSTED = ['sskr_generate_using / sskr_combine implement SSKR; SSKRShare::identifier is the split identifier']
-FLOORS = {'C11.1': 3, 'C11.2': 4, 'C11.3': 3}
+FLOORS = {'C11.1': 3, 'C11.2': 4, 'C11.3': 3, 'C11.6': 3, 'C11.7': 3}
 P1, P2, P3, P4 = [('param', i) for i in range(1, 5)]
 
 
@@ -274,3 +274,28 @@ def check(ctx):
     # C11.5 error discipline: no error of a fallible call is turned into "absent / false / default" outside the reviewed table
     from .. import errflow
     errflow.check(ctx, 'C11.5', ['src/extension/sskr.rs'], 'SSKR family')
+    # C11.6: sskr_join opens the first share envelope with decrypt_subject under the recombined key, so "returns the original decrypted
+    # subject" rests on the symmetric decryption: the decrypt_subject instances of C08 (digest guards, node rebuilt through the node
+    # constructor over the decrypted subject and the node's own assertions) re-evaluated under this property
+    from . import C08
+    from .C07 import Relabel
+    try:
+        C08.check(Relabel(ctx, 'C11.6', ['C08.2', 'C08.3']))
+    except Exception as e:
+        ctx.fail('C11.6', '-', 'decrypt_subject obligations (C08.2/3) could not be evaluated: %r' % e, key='C11.6|c08')
+    # C11.7: "for any envelope, content key and policy": the split side adds no refusal of its own - its only error exits are the `?` of
+    # SSKRSecret::new / sskr_generate* (a bad key length or policy). A guard on the shape of the envelope leaves some envelopes without
+    # any share envelopes at all.
+    F = ctx.F
+    for name in ('sskr_split_using', 'sskr_split', 'sskr_split_flattened'):
+        b = F.method1('Envelope', name)
+        if b is None:
+            ctx.lost('C11.7', 'Envelope::' + name)
+            continue
+        tb = TermBuilder(F, b)
+        own = [(bi, si, t) for bi, si, t in ret_defs(tb) if t[0] == 'agg' and t[2] == 'Err']
+        if own:
+            ctx.fail('C11.7', ctx.site(b, own[0][0], own[0][1]), '%s refuses on a condition of its own (%s): some envelopes get no share envelopes' % (name, fmt(strip_sites(own[0][2]))[:160]),
+                     key='C11.7|' + name)
+        else:
+            ctx.ok('C11.7', ctx.site(b), '%s has no refusal of its own (errors only through `?` of the secret / share generation)' % name)
